@@ -33,7 +33,14 @@ type input struct {
 func opts(in input, chain []xf.M) rty.XOpts {
 	o := rty.XOpts{MaxDepth: in.Depth, MaxWidth: in.Width, AliasFamilies: xf.AliasFamilies(chain), AliasNum: 1, AliasDen: 4,
 		NamedSome: true, Sets: true, TextU: true, Embedded: true, StructElem: true, Maps: true, Slices: true, Arrays: true,
-		UserPtrs: true, DialsTags: true, Desc: true, PoolNames: true, ElemUnexported: true, ElemNested: true}
+		UserPtrs: true, DialsTags: true, Desc: true, PoolNames: true, ElemUnexported: true, ElemNested: true, OddTagValues: true}
+	for _, m := range chain {
+		if m.Kind == "flatten" || m.Kind == "reformat" {
+			// the case encoders' Title step (x/text word segmentation) is modelled for
+			// plain words only: no quotes, blanks, ... in names that get re-cased
+			o.OddTagValues = false
+		}
+	}
 	if len(o.AliasFamilies) == 0 {
 		o.AliasFamilies = []string{"dials"}
 		o.AliasDen = 8
@@ -129,6 +136,9 @@ func run(raw json.RawMessage) driver.Result {
 			rty.StructFieldsTerm(f.V), f.Oracle, xf.ValueOutcome(res))
 	}
 	var direct []string
+	if m := xf.MalformedTag(tto.T); m != "" {
+		direct = append(direct, "translated type: "+m)
+	}
 	coq := caseTerm(f, res)
 	if mode == 0 && r.Chance(1, 3) {
 		// the SAME Transformer reverse-translates a second, different filling;
